@@ -484,3 +484,66 @@ def build_store_load(tier):
                        descr='a load returns the word stored at that key by the preceding store (zero deletes), any other key keeps its content',
                        bounds='one store + one load; arbitrary stored contract state, 256-bit keys and values (four limbs)', max_paths=100000)
             for tr in (False, True)]
+
+
+# ---- JUMP / JUMPI: only to destinations the jump-destination analysis accepts (C18) -------------------------------------
+# CUT (declared): Bytecode::valid_jump_destination -> arbitrary verdict per destination (the analysis itself is decided by
+# the Kani harnesses c18_bytecode_jumpdest*).
+
+def run_jump(cond):
+    def run(E):
+        from mirsym.models_evm import word_int
+        rt, rtref = new_rt(E)
+        dest = mk_word(E, 'dest')
+        test = mk_word(E, 'test')
+        pc = E.materialize('usize', 'pc')
+        E.ctx.assume(pc.v < 2**32)
+        verdict = {}
+
+        def cut_valid(E2, c):
+            d = E2.deref(c.args[1])
+            b = E2.ctx.fresh_bool('valid_jumpdest')
+            E2.ctx.assume(z3.Implies(b, d.v < 2**32))      # contract of the analysis: only offsets inside the code are accepted
+            verdict['dst'] = d.v
+            verdict['ok'] = b
+            E2.ctx.env['verdict'] = dict(verdict)
+            return b
+        E.cuts['Bytecode::valid_jump_destination'] = cut_valid
+        E.ctx.env.update(dict(dest=dest, test=test, pc=pc.v, cond=cond, verdict={}))
+        bc = RefV(Cell(LazyV('bytecode', 'interpreter::bytecode::Bytecode'), 'bc'), ())
+        if cond:
+            return E.run_function(ifn(E, 'jumpi', None), [bc, pc, dest, test]), rt
+        return E.run_function(ifn(E, 'jump', None), [bc, pc, dest]), rt
+    return run
+
+
+def props_jump(E, res):
+    from mirsym.models_evm import word_int
+    env = res.ctx.env
+    if res.kind != 'return':
+        return [('no panic (%s)' % str(res.info)[:60], False)]
+    d = word_int(E, env['dest'])
+    t = word_int(E, env['test'])
+    v = env.get('verdict') or {}
+    taken = z3.BoolVal(True) if not env['cond'] else (t != 0)
+    P = []
+    if is_err(res.value):
+        e = E.deref(res.value.fields[('Err', 0)])
+        code = fget(E, fget(E, e, 0, 'ExitCode'), 0, 'u32').v
+        P.append(('a refused jump fails with the bad-jump-destination code', code == 39))
+        P.append(('a jump is refused only when taken and its destination is out of range or not an accepted JUMPDEST',
+                  z3.And(taken, z3.Or(d >= 2**32, z3.Not(v['ok']) if 'ok' in v else z3.BoolVal(d >= 2**32 if not is_sym(d) else True)))))
+        return P
+    npc = zv(E.deref(res.value.fields[('Ok', 0)]))
+    if 'ok' in v:
+        P.append(('a taken jump lands right after a destination the analysis accepted, and that destination is the operand', z3.And(taken, v['ok'], v['dst'] == d, npc == d + 1)))
+    else:
+        P.append(('an untaken conditional jump falls through to the next instruction without consulting the destination', z3.And(z3.Not(taken), npc == env['pc'] + 1)))
+    return P
+
+
+def build_jumps(tier):
+    return [Obligation('evm.%s' % ('jumpi' if c else 'jump'), run_jump(c), props_jump,
+                       descr='JUMP/JUMPI continue only at operand+1 when the jump-destination analysis accepts the operand (< 2^32); otherwise EVM_CONTRACT_BAD_JUMPDEST; JUMPI with a zero condition falls through',
+                       bounds='256-bit operands (four limbs); CUT: Bytecode::valid_jump_destination (arbitrary verdict; the analysis is decided by Kani)', max_paths=20000)
+            for c in (False, True)]
